@@ -236,7 +236,9 @@ def check(prog, rep, tier):
         add = prog.method(ctx, "add")
         okd = True
         for p in cpaths(prog, ctx, add):
-            ins = [e for e in p.events if e.kind == "call" and e.name == CTXS[ctx]]
+            # an entry also enters the table when it is handed to the expansion step directly (a full-table shortcut): with
+            # auto_expand on, _deal_with_insertion re-inserts what it is given
+            ins = [e for e in p.events if e.kind == "call" and e.name in (CTXS[ctx], "_deal_with_insertion")]
             pr = presence(p)
             pres = pr is not None
             if ins:
